@@ -38,6 +38,27 @@ CHECKS = {
    "Inputs carry tags at seeded absolute indices (clustered where the drip schedule cuts); output tags are collected at consume time and compared as a multiset with the mapped input tags (identity, +delay, -skip, index/decimation) plus the tags each block is specified to add.",
    "Tags are attributed to absolute sample indices by the harness; stream-level tag semantics are C02.",
    "deterministic simulation: seeded drip-feed schedules with tags at chunk boundaries, multiset oracle", "5/C12"),
+
+ "C03": ("mtsim", "exploration",
+   "A producer thread and a consumer thread share one real stream under the baton scheduler: every lock, unlock, condvar wait, notify and time-out firing is a seeded decision (random walk, run-to-block with preemptions, PCT-like priorities; time-out bias 0-100%). Each read window must be the next slice of the committed sequence, window sizes must be bracketed by what the other side had committed/consumed, and no live read window may overlap a live write window (window tracker fed by feature-gated hooks).",
+   "Sequentially consistent interleavings only (no weak-memory effects). Time-outs may fire at any scheduling point (sound over-approximation).",
+   "deterministic simulation: seeded thread schedules with time-out firings over real threads run one at a time", "5/C03"),
+ "C04": ("mtsim", "exploration",
+   "Six shapes (reader waits / polls eof / writer waits, for sample and packet streams) race a peer that commits or consumes a few pieces and then drops its end against wait(need)/eof()/closed() loops, under seeded schedules with time-out firings. A true verdict is checked at its return instant against the facts (peer dropped, fewer than need present, everything committed still readable); once the peer is gone and the remainder is short the verdict must come within 2 calls (fair strategies only).",
+   "SC interleavings. Liveness only asserted under fair strategies.",
+   "deterministic simulation: seeded schedules + peer-drop fault + time-out firings, verdict-truth oracle", "5/C04"),
+ "C05": ("mtsim", "exploration",
+   "The real MTGraph::run executes generated graphs (chains with rate changers, FIR/FFT filters, a tee/merge diamond, HDLC packet stage; sources of 0..3 capacities; 1-4 page streams; shuffled add order) with every block thread under the baton scheduler. run() must return (no deadlock; no stall of 40000 steps without any sample moving, under fair strategies), leave no thread, and the sink must equal a sequential reference execution of the same recipe.",
+   "Reference = same blocks driven sequentially on large streams. Diamond skew < capacity/4. SC interleavings.",
+   "deterministic simulation: seeded schedules of the real runner's threads, reference-execution oracle, stall/deadlock detection", "5/C05"),
+ "C06": ("graphsim", "exploration",
+   "The real Graph::run executes the same recipe space under virtual time, once per add order (all permutations up to 4 blocks, else 8 incl. reverse). Each time run() must return Ok with the sink equal to the reference; returning with data in flight shows as a short sink.",
+   "Single-threaded; the schedule dimension is the block order and buffer sizes.",
+   "deterministic simulation: add-order/stream-size configuration search with virtual sleep, reference-execution oracle", "5/C06"),
+ "C07": ("mtsim+graphsim", "fault_enumeration",
+   "One injected fault per run: cancel() from a canceller thread after a seeded number of scheduling points (MTGraph) or from inside a block's k-th call (Graph), or a pass-through block failing on its k-th call at a seeded chain position; infinite and finite sources; both runners. After cancel() returned no block may be invoked more than 2 (MTGraph) / 1 (Graph) more times, run() returns Ok and leaves no thread; a failing work() must come back as that Err from run(), never a panic, hang or Ok.",
+   "Bound on further calls is the harness's reading of 'bounded'. Spawn failure is not injected (not part of the property).",
+   "deterministic simulation: fault injection (cancel / block error) at seeded points under seeded schedules", "5/C07"),
 }
 PENDING_REASON = "check not built yet in this session (planned in DESIGN.md section 5); not a claim that the property is out of reach"
 
@@ -71,6 +92,8 @@ def main():
             "add_only": True,
         },
         "engines": [
+            {"name": "mtsim", "path": "sim/src/rt.rs, sim/src/mt.rs, sim/src/graphs.rs", "serves_properties": ["C03", "C04", "C05", "C07"], "kind_free_text": "baton scheduler over real OS threads behind the std shim: one seeded decision per lock/unlock/wait/notify/time-out/spawn/join/atomic point; real MTGraph and streams"},
+            {"name": "graphsim", "path": "sim/src/graphsim.rs", "serves_properties": ["C06", "C07"], "kind_free_text": "real Graph::run under virtual time on generated graphs, add-order permutations"},
             {"name": "rig", "path": "sim/src/rig.rs, sim/src/blocks.rs, sim/src/rigcheck.rs", "serves_properties": ["C08", "C09", "C10", "C11", "C12"], "kind_free_text": "drip-feed environment for one block: harness owns all peers of a real block on real streams; seeded feed/drain/work schedules; virtual time"},
             {"name": "bufsim", "path": "sim/src/bufsim.rs", "serves_properties": ["C01", "C02"], "kind_free_text": "seeded single-thread op-history simulator over Buffer<T> with a deque reference model"},
         ],
